@@ -42,7 +42,7 @@ TECHNIQUE = "static analysis: dominance, who-may-construct, symbolic table recov
 
 def u1(led, rid, ctx):
     lib = ctx.lib
-    f = lib.method("ConstraintSatisfactionSolver", "solve_internal")
+    f = __import__("lint.props.shared", fromlist=["x"]).solve_internal(lib)
     ds = f.calls_named("declare_infeasible")
     led.check(len(ds) == 1, rid, "solve_internal:one-site", f.span, "", "%d declare_infeasible sites in the search loop" % len(ds))
     for c in ds:
@@ -74,10 +74,11 @@ def u1(led, rid, ctx):
     led.floor(rid, "transitions into Infeasible", n, 1)
     # Infeasible flag ↔ state (typestate T1 shares this)
     who = set()
+    inl = {h.defn: "solve_internal" for h in getattr(f, "inlined", [])}     # helpers the search loop is split into
     for g in lib.fns.values():
         for c in g.calls:
             if c.name == "declare_infeasible" and (c.self_ty or "").endswith("CSPSolverState"):
-                who.add((g.parent or g.defn).rsplit("::", 1)[-1])
+                who.add(inl.get(g.parent or g.defn) or (g.parent or g.defn).rsplit("::", 1)[-1])
     led.check(who <= {"solve_internal", "add_propagator"}, rid, "who-declares-infeasible", None,
               "declared by %s" % sorted(who), "declare_infeasible is now called from %s" % sorted(who))
 
